@@ -8,7 +8,7 @@ from productmd.treeinfo import TreeInfo
 PROPERTY = "C17"
 
 
-def general_mirrors(sym, shape, opts, focus, main_variant, float_timestamp, reload_main=None):
+def general_mirrors(sym, shape, opts, focus, main_variant, float_timestamp, reload_main=None, first_main=None):
     try:
         ti, objs = C04.build(sym, shape, opts, focus)
         if float_timestamp is not None:
@@ -23,6 +23,10 @@ def general_mirrors(sym, shape, opts, focus, main_variant, float_timestamp, relo
             ti.loads(f0.read())
             sym.cover("reloaded")
             objs = dict((u, ti.variants[u]) for u in objs)
+        if first_main is not None:
+            # the same object was written before, for another main variant: each dump follows its own request
+            ti.dump(io.StringIO(), main_variant=first_main)
+            sym.cover("dumped-before")
         f = io.StringIO()
         if main_variant is None:
             ti.dump(f)
@@ -117,6 +121,18 @@ def jobs(tier, seed):
                 for u in tops + kids:
                     o["paths"][u] = list(PATH_OPTIONS[(si + len(u)) % 2])
                 out.append({"harness": "general_mirrors", "params": {"shape": shape, "opts": o, "focus": [], "main_variant": mv, "float_timestamp": None, "reload_main": rm}})
+    # one object written twice: first for one main variant, then without a request (or for another one)
+    for si, shape in enumerate(("two-top", "optional-first", "children")):
+        tops = sorted(u for i, u, par, t in C04.SHAPES[shape] if par is None)
+        kids = sorted(u for i, u, par, t in C04.SHAPES[shape] if par is not None)
+        for fi, fm in enumerate(tops[::-1] + kids[:1]):
+            for mv in ([None, tops[0]] if big else [None]):
+                o = C04._opts(shape, (seed + si + fi + 3) % 12)
+                if o["arch"] not in o["images"]:
+                    o["images"] = {}
+                for u in tops + kids:
+                    o["paths"][u] = list(PATH_OPTIONS[(si + len(u)) % 2])
+                out.append({"harness": "general_mirrors", "params": {"shape": shape, "opts": o, "focus": [], "main_variant": mv, "float_timestamp": None, "first_main": fm}})
     # extra platforms that have no image table while other platforms have one ([general] platforms follows [tree], not the image tables)
     for si, shape in enumerate(("single", "two-top")):
         for arch in ("x86_64", "src"):
@@ -130,10 +146,11 @@ def jobs(tier, seed):
 
 META = {
     "fp_lemma": True,
-    "expected_covers": {"general_mirrors": ["written", "reloaded"]},
+    "expected_covers": {"general_mirrors": ["written", "reloaded", "dumped-before"]},
     "assumptions": C04.META["assumptions"] + [
         "the written text is read by an independent configparser.ConfigParser(interpolation=None, optionxform=str) through the same INI stub",
         "in a third of the jobs the Variant objects were created for another TreeInfo (of the other kind: source vs binary) and then added to the tree that is written",
+        "dump-twice jobs: the same object is first written for one main variant and then again without a request",
         "reload jobs: the tree is first written for one main variant (each top-level variant, a child), read into a fresh TreeInfo and written again without a request",
         "main variant: none (default = alphabetically first top-level variant), each top-level variant, or each nested variant by its UID; float timestamps from a pool, integer timestamps symbolic",
     ],
